@@ -81,7 +81,7 @@ type field struct {
 	orig       bool // present in the base version
 	reqEdited  bool
 	typeEdited bool
-	frozen     bool // carries a default value: never edited
+	frozen     bool // carries (carried) a default value: never edited, except optional-with-default -> required (default dropped)
 }
 
 type method struct {
